@@ -38,6 +38,9 @@ type scenario struct {
 type frame struct {
 	msg   message.RpcMessage
 	bytes []byte
+	// tiny: the body is too short to be a message. What is delivered for it is not judged (no peer sends it);
+	// it must be taken off the stream as one frame, without panic and without spinning.
+	tiny bool
 }
 
 type kv struct{ k, v string }
@@ -138,6 +141,11 @@ func buildFrame(id int32, s shape, r *rand.Rand) frame {
 		} else {
 			typ, val = byte(message.GettyRequestTypeHeartbeatResponse), message.HeartBeatMessagePong
 		}
+	} else if s.Body < 6 {
+		// a body too short to hold a message (1 byte: not even a type code): well-formed as a frame, delivered
+		// with an empty body
+		typ = byte(message.GettyRequestTypeRequestSync)
+		body, val = make([]byte, s.Body), nil
 	} else {
 		typ = byte(message.GettyRequestTypeRequestSync)
 		body, val = commitBody(s.Body, r)
@@ -145,6 +153,7 @@ func buildFrame(id int32, s shape, r *rand.Rand) frame {
 	return frame{
 		msg:   message.RpcMessage{ID: id, Type: message.GettyRequestType(typ), Codec: 1, Compressor: 0, HeadMap: m, Body: val},
 		bytes: encodeFrame(id, typ, hm, body),
+		tiny:  s.Body > 0 && s.Body < 6,
 	}
 }
 
@@ -280,7 +289,7 @@ func run(t *trace.T, frames []frame, junk []byte, cuts []int) {
 				t.Add("Parse", "res", "need", "cn", 0, "eq", true, "sig", sig)
 				break
 			}
-			eq := out < len(frames) && sameMsg(pkg, frames[out].msg)
+			eq := out < len(frames) && (frames[out].tiny || sameMsg(pkg, frames[out].msg))
 			t.Add("Parse", "res", "msg", "cn", n, "eq", eq, "sig", sig)
 			out++
 			if n <= 0 || n > len(buf) {
